@@ -144,7 +144,7 @@ class Generator:
             j = i + 1
             while j < len(lines):
                 sj = lines[j].strip()
-                if re.match(r"^//@(\||loop\s|rewrite|rewriteall|before|after)", sj):
+                if re.match(r"^//@(\||loop\s|rewrite|rewriteall|before|afterstmt|after)", sj):
                     cont.append(sj)
                     j += 1
                 else:
@@ -376,7 +376,7 @@ class Generator:
             if opts.get("od") != "off":
                 body = self._od_wrap(body, rules)
             for c in edits:
-                if c.startswith("//@before") or c.startswith("//@after"):
+                if c.startswith("//@before") or c.startswith("//@after"):  # incl. afterstmt
                     body = self._apply_insert(c, body, rules, it)
             if loops:
                 body = self._splice_loops(body, loops, it)
@@ -499,7 +499,7 @@ class Generator:
         return self._ws_regex(old).sub(lambda m: new, text)
 
     def _apply_insert(self, c, body, rules, it):
-        m = re.match(r"^//@(before|after)\s*<<<(.*?)>>>\|\s?(.*)$", c, re.S)
+        m = re.match(r"^//@(before|afterstmt|after)\s*<<<(.*?)>>>\|\s?(.*)$", c, re.S)
         if not m:
             raise AnchorLost("bad insert directive: %s" % c)
         where, anchor, ins = m.groups()
@@ -507,7 +507,26 @@ class Generator:
         ms = list(rx.finditer(body))
         if len(ms) != 1:
             raise AnchorLost("insert anchor occurs %d times in %s: %s" % (len(ms), it.name, anchor[:60]))
-        p = ms[0].start() if where == "before" else ms[0].end()
+        if where == "afterstmt":
+            # the anchor names the beginning of a statement; insert after that statement's `;`
+            toks = code_tokens(lex(body))
+            depth, p = 0, None
+            for t in toks:
+                if t.start < ms[0].start():
+                    continue
+                if t.text in ("(", "[", "{"):
+                    depth += 1
+                elif t.text in (")", "]", "}"):
+                    depth -= 1
+                    if depth < 0:
+                        break
+                elif t.text == ";" and depth == 0:
+                    p = t.end
+                    break
+            if p is None:
+                raise AnchorLost("statement end not found after anchor in %s: %s" % (it.name, anchor[:60]))
+        else:
+            p = ms[0].start() if where == "before" else ms[0].end()
         return body[:p] + " " + ins + " " + body[p:]
 
     def _generic_desugar(self, body, rules):
